@@ -18,13 +18,18 @@
      3. the checksum CommitWAL reports = scratch over (this tx's page, else last
         committed WAL version, else database page);
      4. a drop reports exactly the empty checksum.
-   NOT proved (C04_history_partial): that the per-page cache agrees with the
-   bytes on disk along every history through Open / checkpoint / apply; this
-   composition is re-checked on every run by the correspondence (the model
-   re-executes every generated history and must reproduce every reported
-   position) and by the harness' raw-file recomputation. *)
+     5. (round 7) along EVERY history of rollback-journal transactions from an
+        empty node - any page writes in any order, pages SQLite never writes,
+        growth, shrink with the truncate that follows - the per-page cache
+        agrees with the file page by page and every reported checksum is the
+        from-scratch checksum of the database file (C04_journal_history).
+   NOT proved (C04_history_partial): the same composition through WAL-mode
+   transactions, checkpoints, Open and replicated apply; it is re-checked on
+   every run by the correspondence (the model re-executes every generated
+   history and must reproduce every reported position) and by the harness'
+   raw-file recomputation. *)
 From Coq Require Import NArith List Bool.
-Require Import LF.Gen.ConstsGen LF.Model.PageDB LF.Proofs.XorLib LF.Proofs.ChecksumProofs.
+Require Import LF.Gen.ConstsGen LF.Model.PageDB LF.Proofs.XorLib LF.Proofs.ChecksumProofs LF.Proofs.HistoryProofs.
 Import ListNotations.
 Local Open Scope N_scope.
 
@@ -82,3 +87,29 @@ Example C04_unwritten_pages_nonvacuous :
   (unwritten (snd (run_group s1 [OWrite 1 (mkPg (fl 21) 5 false); OWrite 5 (mkPg (fl 55) 0 false)])) 3 = true) /\
   run_group s2 [OOpen] = (0, snd (run_group s2 [OOpen])) /\ chk (snd (run_group s2 [OOpen])) = chk s2.
 Proof. vm_compute. repeat split; reflexivity. Qed.
+
+(* Histories.  [hstep]: a committed rollback-journal transaction (the gaps the file system fills with zeros - pages SQLite
+   never writes -, the page writes, the new size) or the truncate that follows a shrinking commit; [wf_hist]: what SQLite's
+   pager guarantees (gaps lie beyond the old size and are distinct, page numbers start at 1, the journal mode stays).
+   For EVERY such history from an empty node, of any length: once something was committed the position's checksum is the
+   from-scratch checksum of the database file, and the cache agrees with the file on every page of the database. *)
+Theorem C04_journal_history : forall lock hs s',
+  1 <= lock -> wf_hist (init lock) hs -> run_hsteps (init lock) hs = Some s' ->
+  (txid s' <> 0 -> chk s' = scratch (fun p => if p =? lock then 0 else file_h s' p) (pageN s')) /\
+  (forall p, 1 <= p <= pageN s' -> p <> lock -> dbc s' p = file_h s' p) /\ lockpg s' = lock.
+Proof. exact journal_history_checksum. Qed.
+
+(* Non-vacuity: create 2 pages; grow to 5 writing only pages 1 and 5 (3 and 4 are gaps); a transaction that spills pages 2
+   and 7 and is rolled back (pre-image back, cut to 5 pages); shrink to 3 and truncate *)
+Example C04_journal_history_nonvacuous :
+  let pg h := mkPg (fl h) 0 false in
+  let hs := [HTx [] [AWrite 1 (pg 11); AWrite 2 (pg 12)] 2;
+             HTx [(3, pg 33); (4, pg 44)] [AWrite 1 (pg 21); AWrite 5 (pg 55)] 5;
+             HTx [] [AWrite 2 (pg 77); AWrite 7 (pg 70); AWrite 2 (pg 12); ACut] 5;
+             HTx [] [AWrite 2 (pg 92)] 3; HTrunc 3] in
+  wf_hist (init 2097153) hs /\
+  match run_hsteps (init 2097153) hs with
+  | Some s => (txid s, pageN s, lenN (dbfile s), chk s =? fl (N.lxor (N.lxor 21 92) 33)) = (4, 3, 3, true)
+  | None => False
+  end.
+Proof. exact journal_history_example. Qed.
